@@ -111,6 +111,10 @@ class NodeRef(object):
         self.tags = {}
         self.waiting = {}
         self.delivered = set()
+        # an account of the environment, not of the node: the destination networks the application has already sent
+        # traffic to while a path was known (such a packet leaves at once and changes nothing in the knowledge, but the
+        # node has now *used* a path -- two histories that differ only in this are different histories)
+        self.sent_known = set()
 
     def net(self, port):
         return self.ports[port].net
@@ -152,6 +156,7 @@ class NodeRef(object):
         self.tags[tag] = dnet
         if self.next_hops(dnet):
             self.waiting.setdefault(dnet, []).append(tag)      # expected on the wire within this very step
+            self.sent_known.add(dnet)
             return "forward"
         first = not self.waiting.get(dnet)
         self.waiting.setdefault(dnet, []).append(tag)
@@ -174,6 +179,9 @@ class NodeRef(object):
 
     def held_counts(self):
         return tuple(sorted((d, len(v)) for d, v in self.waiting.items() if v))
+
+    def sent_over_known_path(self):
+        return tuple(sorted(self.sent_known))
 
     def overdue(self):
         """Destination networks with a known path for which packets are still held (must be empty in a sound state)."""
